@@ -751,8 +751,12 @@ func (c *Ctx) checkExprKeys(r *Report) {
 	r.Floor("map stores in the walker", n, 5)
 	// "later assignments to the same key win": the type name is the first thing written for a block, so an
 	// explicit `type = …` field of the same block (textually later) overrides it
+	typeFn, fieldFn := c.walkerFuncs()
+	if typeFn == nil || fieldFn == nil {
+		r.Undecided("C17.keys:walker", "", "the walker's block function (stores the type name) and field function (stores values) were not identified")
+	}
 	for _, f := range c.Funcs {
-		if f.Pkg != c.ExprS || f.Name() != "parseExpr" {
+		if f != typeFn {
 			continue
 		}
 		var typeStore ssa.Instruction
@@ -765,7 +769,7 @@ func (c *Ctx) checkExprKeys(r *Report) {
 				}
 			}
 			if call, ok := in.(*ssa.Call); ok {
-				if s := call.Common().StaticCallee(); s != nil && s.Name() == "parseInnerExpr" {
+				if s := call.Common().StaticCallee(); s != nil && s == fieldFn {
 					inner = append(inner, in)
 				}
 			}
@@ -790,13 +794,13 @@ func (c *Ctx) checkExprKeys(r *Report) {
 	}
 	// nested expressions recurse with the field key
 	for _, f := range c.Funcs {
-		if f.Pkg != c.ExprS || f.Name() != "parseInnerExpr" {
+		if f != fieldFn {
 			continue
 		}
 		ok := false
 		eachInstr(f, func(in ssa.Instruction) {
 			if call, isC := in.(*ssa.Call); isC {
-				if s := call.Common().StaticCallee(); s != nil && s.Name() == "parseExpr" {
+				if s := call.Common().StaticCallee(); s != nil && s == typeFn {
 					kp := c.prov(call.Call.Args[1], &Frame{Fn: f}).String()
 					if strings.Contains(kp, "FieldAccess") {
 						ok = true
@@ -828,4 +832,26 @@ func exprString(e ast.Expr) string {
 		return exprString(x.X) + x.Op.String() + exprString(x.Y)
 	}
 	return fmt.Sprintf("%T", e)
+}
+
+// walkerFuncs: the listener method that records a block's type name and the one that records field values.
+func (c *Ctx) walkerFuncs() (typeFn, fieldFn *ssa.Function) {
+	for _, f := range c.Funcs {
+		if f.Pkg != c.ExprS || f.Signature.Recv() == nil {
+			continue
+		}
+		eachInstr(f, func(in ssa.Instruction) {
+			mu, ok := in.(*ssa.MapUpdate)
+			if !ok {
+				return
+			}
+			vp := c.prov(mu.Value, &Frame{Fn: f}).String()
+			if strings.Contains(vp, "IDENT") && !strings.Contains(vp, "Value") {
+				typeFn = f
+			} else if strings.Contains(vp, "Value") {
+				fieldFn = f
+			}
+		})
+	}
+	return
 }
